@@ -118,7 +118,7 @@ func Subscribe(b *Built, text string, vars map[string]interface{}, sched graphql
 	sock.Send(map[string]interface{}{"id": "s1", "type": "subscribe", "message": map[string]interface{}{"query": text, "variables": vars}})
 	select {
 	case <-sock.wrote:
-	case <-time.After(5 * time.Second):
+	case <-time.After(8 * time.Second):
 		res.TimedOut = true
 	}
 	first := sock.Written()
